@@ -285,7 +285,7 @@ func correspondence2(o *hx.Opts, rng *rand.Rand, res *hx.Result, add func(kind, 
 		t, js, nt := genAlloc(rng)
 		add("alloc", t, js, nt)
 	}
-	for i, n := 0, o.Count(80, 800); i < n; i++ {
+	for i, n := 0, o.Count(50, 800); i < n; i++ {
 		t, js, nt, err := genOAuth(rng, i)
 		if err != nil {
 			res.Count("corr_oauth_error")
@@ -294,7 +294,7 @@ func correspondence2(o *hx.Opts, rng *rand.Rand, res *hx.Result, add func(kind, 
 		}
 		add("oauth", t, js, nt)
 	}
-	for i, n := 0, o.Count(80, 800); i < n; i++ {
+	for i, n := 0, o.Count(50, 800); i < n; i++ {
 		t, js, nt, err := genAlias(rng, i)
 		if err != nil {
 			res.Count("corr_alias_error")
@@ -303,7 +303,7 @@ func correspondence2(o *hx.Opts, rng *rand.Rand, res *hx.Result, add func(kind, 
 		}
 		add("alias", t, js, nt)
 	}
-	for i, n := 0, o.Count(60, 600); i < n; i++ {
+	for i, n := 0, o.Count(40, 600); i < n; i++ {
 		t, js, nt, err := genTcp(rng, i)
 		if err != nil {
 			res.Count("corr_tcp_error")
